@@ -343,6 +343,8 @@ class Interp:
         return self.binop(type(n.op), a, b)
 
     def binop(self, op, a, b):
+        if isinstance(a, (self.models.HexText, self.models.HexOfBytes)) or isinstance(b, (self.models.HexText, self.models.HexOfBytes)):
+            return self.models.binop(self, op, a, b)
         if not has_sym(a) and not has_sym(b):
             if isinstance(a, Closure) or isinstance(b, Closure):
                 raise Unsupported("binop on closure")
@@ -419,6 +421,8 @@ class Interp:
                     raise Unsupported("bit_length of a symbolic int")
                 return uv.bit_length
             return CellMethod(v, name)
+        if isinstance(v, self.models.HexText) and name == 'encode':
+            return lambda *a, **k: self.models.HexText(v.v, v.pad, True)
         if isinstance(v, Closure):
             raise Unsupported("attribute of closure")
         sp = self.models.native_attr(self, v, name)
@@ -757,6 +761,9 @@ class Interp:
             if m is None:
                 raise Unsupported("statement " + type(s).__name__)
             m(s)
+            hook = getattr(self, 'cut_hook', None)
+            if hook is not None and len(self.frames) == 1 and not self.st.merge:
+                hook(self.frames[-1], s)
 
     def st_Expr(self, s):
         if isinstance(s.value, ast.Constant):
